@@ -56,7 +56,8 @@ fn enabled(m: &Model, b: &Bounds) -> Vec<Op> {
         v.push(Op::DropGuard(g));
         if nobj < b.maxo && live_h.len() < b.maxh { v.push(Op::Alloc(g)); }
         if !m.guards[g as usize].as_ref().map(|r| r.is_empty()).unwrap_or(true) { v.push(Op::Clear(g)); }
-        for &h in &live_h { if m.fresh(h) { v.push(Op::GuardAdd(g, h)); v.push(Op::Unguard(g, h)); } }
+        // guard()/unguard() through a stale handle (its object was swept, the slot maybe reused) must be rejected without effect
+        for &h in &live_h { v.push(Op::GuardAdd(g, h)); v.push(Op::Unguard(g, h)); }
     }
     for &h in &live_h {
         if live_h.len() < b.maxh { v.push(Op::CloneH(h)); }
@@ -93,10 +94,10 @@ fn apply(m: &mut Model, im: &mut Impl, op: Op) {
             m.guards[g as usize].as_mut().unwrap().push(id);
             put(&mut m.handles, id); put(&mut im.handles, h);
         }
-        Op::GuardAdd(g, h) => { let o = m.handles[h as usize].unwrap(); m.guards[g as usize].as_mut().unwrap().push(o);
+        Op::GuardAdd(g, h) => { let o = m.handles[h as usize].unwrap(); if m.fresh(h) { m.guards[g as usize].as_mut().unwrap().push(o); }
             im.guards[g as usize].as_ref().unwrap().guard(im.handles[h as usize].as_ref().unwrap().clone()); }
-        Op::Unguard(g, h) => { let o = m.handles[h as usize].unwrap(); let roots = m.guards[g as usize].as_mut().unwrap();
-            let expect = if let Some(p) = roots.iter().position(|&r| r == o) { roots.swap_remove(p); true } else { false };
+        Op::Unguard(g, h) => { let o = m.handles[h as usize].unwrap(); let stale = !m.fresh(h); let roots = m.guards[g as usize].as_mut().unwrap();
+            let expect = if stale { false } else if let Some(p) = roots.iter().position(|&r| r == o) { roots.swap_remove(p); true } else { false };
             let got = im.guards[g as usize].as_ref().unwrap().unguard(im.handles[h as usize].as_ref().unwrap());
             if got != expect { m.next_val = u32::MAX; } // flagged by check via sentinel
         }
